@@ -21,8 +21,9 @@ import (
 )
 
 type c17File struct {
-	Kind string
-	Data []byte
+	Kind          string
+	Data          []byte
+	ContainerOnly bool // header-only bitstream (Coq witness): Decode is not part of the evaluation
 }
 
 type span struct {
@@ -73,7 +74,7 @@ func c17Files(c *Ctx) []c17File {
 			c.Violate("generator-encode-failed", "Encode failed for "+kind, fmt.Sprint(err))
 			return
 		}
-		files = append(files, c17File{kind, data})
+		files = append(files, c17File{Kind: kind, Data: data})
 	}
 	rng := c.Rng.Fork()
 	dims := [][2]int{{8, 8}, {17, 13}, {33, 20}}
@@ -163,6 +164,12 @@ func c17Files(c *Ctx) []c17File {
 			}
 		}
 	}
+	// the Coq witnesses of the (repaired) defects, as regression inputs: C17_features_prefix_refuted
+	// (VP8X + VP8 header, cut at 30) and C17_config_prefix_refuted (VP8X + ICCP + VP8L header with
+	// a clear alpha bit, cut at 40); their bitstreams are bare headers, so only the header queries run.
+	w1 := riffFile(append(chunkBytes("VP8X", vp8xPayload(0, 1, 1)), chunkBytes("VP8 ", vp8Header(1, 1))...))
+	w2 := riffFile(append(append(chunkBytes("VP8X", vp8xPayload(0x20, 1, 1)), chunkBytes("ICCP", []byte{1, 2})...), chunkBytes("VP8L", []byte{0x2f, 0, 0, 0, 0})...))
+	files = append(files, c17File{"witness-vp8x-vp8", w1, true}, c17File{"witness-vp8x-iccp-vp8l", w2, true})
 	return files
 }
 
@@ -175,7 +182,10 @@ func main() {
 		files := c17Files(c)
 		for _, f := range files {
 			full := runAPIs(f.Data)
-			if full.Panic != "" || full.Dec == "E" || full.Cfg == "E" || full.Feat == "E" {
+			if f.ContainerOnly {
+				full.Dec = "E"
+			}
+			if full.Panic != "" || (full.Dec == "E" && !f.ContainerOnly) || full.Cfg == "E" || full.Feat == "E" {
 				c.Violate("generator-file-not-decodable", "a file written by Encode is rejected: "+f.Kind, map[string]any{"file": hx(f.Data), "result": full})
 				continue
 			}
@@ -188,6 +198,9 @@ func main() {
 			for n := 0; n < len(f.Data); n++ {
 				p := f.Data[:n:n]
 				r := runAPIs(p)
+				if f.ContainerOnly {
+					r.Dec = "E"
+				}
 				pl, pp := safeParse(p)
 				c.Case(fmt.Sprintf("P %d", n), pl)
 				c.D.Evaluations++
